@@ -169,6 +169,11 @@ def negative_sierra_templates(out_dir):
         # a backward jump that changes the variable set (loop head sees an extra variable)
         "loop_changes_vars": "L:\ndup_felt([0]) -> ([0], [1]);\njump() { L() };\n\nverif::f@0([0]: felt252) -> ();\n",
     }
+    # return statements whose arity differs from the declared return types (the common prefix is well typed)
+    body["return_too_few"] = "store_felt([0]) -> ([0]);\nreturn([0]);\n\nverif::f@0([0]: felt252) -> (felt252, felt252);\n"
+    body["return_too_many"] = "dup_felt([0]) -> ([0], [1]);\nstore_felt([0]) -> ([0]);\nstore_felt([1]) -> ([1]);\nreturn([0], [1]);\n\nverif::f@0([0]: felt252) -> (felt252);\n"
+    body["return_none_of_one"] = "drop_felt([0]) -> ();\nreturn();\n\nverif::f@0([0]: felt252) -> (felt252);\n"
+    body["return_one_of_none"] = "store_felt([0]) -> ([0]);\nreturn([0]);\n\nverif::f@0([0]: felt252) -> ();\n"
     for k, v in body.items():
         progs[k] = _HDR + v
     # frame state (environment/frame_state.rs): where alloc_local / finalize_locals are allowed.  Not part of the Coq
